@@ -9,6 +9,7 @@ CONSTANTS
   MaxParse = 2
   Family = "c11"
   Reconfigure = TRUE
+  Small = FALSE
   Emit = TRUE
 INVARIANTS
   Inv_ExpectIff
